@@ -104,7 +104,21 @@ def phase_C13(tier, seed, st, stats):
                     viol.append({"kind": "x86 machine model on the translated assembly != the kernel's observed result "
                                          "(correspondence of X86.v / tools/asm2prog.py with the CPU no longer checks)",
                                  "case": key, "detail": "under GODEBUG=%s the kernel returns %s, the machine model %s" % (godebug[combo], obs.get("strcase"), val)})
-    cov = {"x86_model_validation": {"kernel_cases_replayed_in_the_machine_model": len(picked), "disagreements": bad,
+    # (3) the portable Go bodies (what architectures without assembly run): the same kernel property with the
+    #     harness built for GOARCH=386, its sweep findings and its cases against the scalar definitions
+    outdir386 = os.path.join(BUILD, "run", "C13_goarch386")
+    s386 = vlib.run_harness("C13", "quick", seed, outdir386, binary=vlib.build_variant("386", {"GOARCH": "386"}))
+    n386, mism386, _ = vlib.compare_with_model(outdir386)
+    for fnd in (s386.get("findings") or []):
+        if fnd["kind"] == "kernel":
+            viol.append({"kind": "kernel", "fn": fnd.get("fn"), "case": fnd.get("case"),
+                         "detail": "portable Go body (GOARCH=386): %s" % fnd.get("detail")})
+    for mm in mism386[:5]:
+        viol.append(dict(mm, kind="implementation != Spec (extracted Coq model) — portable Go bodies, GOARCH=386"))
+    portable = {"cases_against_the_scalar_definitions": n386, "mismatches": len(mism386),
+                "sweep_evaluations": s386.get("evaluations"), "sweep_findings": len(s386.get("findings") or [])}
+    cov = {"portable_go_bodies_goarch386": portable,
+           "x86_model_validation": {"kernel_cases_replayed_in_the_machine_model": len(picked), "disagreements": bad,
                                     "features_of_the_real_run": real,
                                     "predictions_for_other_feature_sets_differing_from_the_definition": predicted,
                                     "of_which_confirmed_on_the_real_kernel": confirmed,
